@@ -372,6 +372,10 @@ func processorScenario(kind string, n int, c int) *explore.Scenario {
 				break
 			}
 		}
+		// the documented pass-through OnHandle hook may be configured: it calls the handler and returns its result, so
+		// nothing else changes (dispatch, context, ack policy)
+		hook := vs.Choose(2, 0, "OnHandle hook configured") == 1
+		hooked := 0
 		// group: one of the handlers may fail for every event it is given, whatever the others do with the same event
 		failing := ""
 		if kind == "group" {
@@ -436,6 +440,10 @@ func processorScenario(kind string, n int, c int) *explore.Scenario {
 				},
 				Marshaler:                m,
 				AckCommandHandlingErrors: flag,
+				OnHandle: map[bool]cqrs.CommandProcessorOnHandleFn{true: func(p cqrs.CommandProcessorOnHandleParams) error {
+					hooked++
+					return p.Handler.Handle(p.Message.Context(), p.Command)
+				}}[hook],
 			})
 			setupErr = err
 			for i, t := range registry {
@@ -457,6 +465,10 @@ func processorScenario(kind string, n int, c int) *explore.Scenario {
 				},
 				Marshaler:         m,
 				AckOnUnknownEvent: flag,
+				OnHandle: map[bool]cqrs.EventProcessorOnHandleFn{true: func(p cqrs.EventProcessorOnHandleParams) error {
+					hooked++
+					return p.Handler.Handle(p.Message.Context(), p.Event)
+				}}[hook],
 			})
 			setupErr = err
 			for i, t := range registry {
@@ -478,6 +490,10 @@ func processorScenario(kind string, n int, c int) *explore.Scenario {
 				},
 				Marshaler:         m,
 				AckOnUnknownEvent: flag,
+				OnHandle: map[bool]cqrs.EventGroupProcessorOnHandleFn{true: func(p cqrs.EventGroupProcessorOnHandleParams) error {
+					hooked++
+					return p.Handler.Handle(p.Message.Context(), p.Event)
+				}}[hook],
 			})
 			setupErr = err
 			var hs []cqrs.GroupEventHandler
@@ -506,7 +522,7 @@ func processorScenario(kind string, n int, c int) *explore.Scenario {
 		<-r.Running()
 		vs.Quiesce()
 
-		cfg := fmt.Sprintf("kind=%s generator=%s flag=%v registry=%v failing=%q stream=", kind, generators[gen].name, flag, registry, failing)
+		cfg := fmt.Sprintf("kind=%s generator=%s flag=%v OnHandle=%v registry=%v failing=%q stream=", kind, generators[gen].name, flag, hook, registry, failing)
 		for _, e := range stream {
 			cfg += e.kind + ":" + normalize(e.val) + " "
 		}
@@ -578,6 +594,9 @@ func processorScenario(kind string, n int, c int) *explore.Scenario {
 				}
 				expectSettle[key+"/"+e.msg.UUID] = st
 			}
+		}
+		if hook && hooked != len(invs) {
+			vs.Fail("on-handle-hook", "%s: the OnHandle hook ran %d times for %d handler invocations", cfg, hooked, len(invs))
 		}
 		var gotInv []string
 		for _, iv := range invs {
